@@ -18,6 +18,8 @@ var jumpLen = zz.JumpLen()
 
 var patchTargets = []hwd.Target{hwd.TF0, hwd.TF1, hwd.TM, hwd.TLm, hwd.TG, hwd.TG2own, hwd.TG2hw, hwd.TLoop}
 
+var behaviourTargets = append(append([]hwd.Target{}, patchTargets...), hwd.TXA)
+
 func alphabet(thorough bool) []hwd.Op {
 	var a []hwd.Op
 	add := func(b int, t hwd.Target, ks ...hwd.Kind) {
@@ -34,6 +36,7 @@ func alphabet(thorough bool) []hwd.Op {
 		add(1, hwd.TF1, hwd.KApplyA, hwd.KApplyO, hwd.KCancel) // a second function with its own origin placeholder
 		add(0, hwd.TG2own, hwd.KApplyA, hwd.KCancel) // unexported function by name; own.g2 or, after Pkg, hw.g2
 		add(0, hwd.TLoop, hwd.KApplyA, hwd.KApplyORefused) // a plain mock works, an apply with an origin placeholder must be refused
+		add(0, hwd.TXA, hwd.KApplyA, hwd.KReturn) // an interface method: its stubs live outside the image, which must stay pristine however many are made
 		a = append(a, hwd.Op{B: 0, K: hwd.KPkg})
 		a = append(a, hwd.Op{B: 0, T: hwd.TF0, K: hwd.KApplyA, Kept: true}, hwd.Op{B: 0, T: hwd.TM, K: hwd.KApplyA, Kept: true})
 		a = append(a, hwd.Op{B: 0, K: hwd.KReset}, hwd.Op{B: 1, K: hwd.KReset})
@@ -49,6 +52,7 @@ func alphabet(thorough bool) []hwd.Op {
 	add(1, hwd.TF1, hwd.KApplyA, hwd.KApplyO, hwd.KCancel)
 	add(0, hwd.TG2own, hwd.KApplyA, hwd.KReturn, hwd.KCancel)
 	add(0, hwd.TLoop, hwd.KApplyA, hwd.KCancel, hwd.KApplyORefused)
+	add(0, hwd.TXA, hwd.KApplyA, hwd.KReturn)
 	a = append(a, hwd.Op{B: 0, K: hwd.KPkg})
 	a = append(a, hwd.Op{B: 0, T: hwd.TF0, K: hwd.KApplyA, Kept: true}, hwd.Op{B: 0, T: hwd.TM, K: hwd.KApplyA, Kept: true}, hwd.Op{B: 1, T: hwd.TF0, K: hwd.KApplyA, Kept: true})
 	return a
@@ -70,7 +74,7 @@ func check(w *hwd.World, m *hwd.Model, hist []hwd.Op) (fail string, judged, unju
 	if bad := vk.OutsideAllowed(hwd.Img.Diff(), allowed); len(bad) > 0 {
 		return fmt.Sprintf("bytes: the image differs from the pristine image outside the entry jumps of currently mocked functions and the placeholder: %s", hwd.Where(bad)), judged, 0
 	}
-	f, j, u := hwd.Behaviour(w, m, patchTargets)
+	f, j, u := hwd.Behaviour(w, m, behaviourTargets)
 	return f, judged + j, u
 }
 
